@@ -71,7 +71,7 @@ def _outcome(fn):
     except NotImplementedError as e:
         return ("refused", "NotImplementedError", compare.msg(e, 120))
     except BaseException as e:  # noqa: BLE001
-        if isinstance(e, (KeyboardInterrupt, SystemExit, executor.ProtocolError)):
+        if isinstance(e, (KeyboardInterrupt, SystemExit, executor.ProtocolError)) and not isinstance(e, executor.InjectedInterrupt):
             raise
         return ("raise", type(e).__name__, compare.msg(e, 160))
 
